@@ -105,6 +105,59 @@ def pump_channel():
     return _PUMP["cls"]()
 
 
+_COUPLED = {}
+
+
+def coupled_channels():
+    """Two user-defined channels coupled through a STATE: `Zeta` relaxes its state towards a sigmoid of the voltage, `Alpha` (whose
+    name sorts before `Zeta`) relaxes towards Zeta's state as it finds it in the state dictionary during its own update.  The result of
+    a step depends on the order in which the module updates its channels, i.e. on the order of insertion -- which assembly must keep."""
+    if "cls" not in _COUPLED:
+        import jax.numpy as jnp
+        from jaxley.channels import Channel
+
+        class Zeta(Channel):
+            def __init__(self, name=None):
+                self.current_is_in_mA_per_cm2 = True
+                super().__init__(name)
+                self.channel_params = {"Zeta_tau": 0.05}
+                self.channel_states = {"Zeta_z": 0.2}
+                self.current_name = "i_Zeta"
+
+            def update_states(self, u, dt, v, params):
+                z_inf = 1.0 / (1.0 + jnp.exp(-(v + 60.0) / 8.0))
+                e = jnp.exp(-dt / params["Zeta_tau"])
+                return {"Zeta_z": u["Zeta_z"] * e + z_inf * (1 - e)}
+
+            def compute_current(self, u, v, params):
+                return 0.0 * v
+
+            def init_state(self, states, v, params, delta_t):
+                return {}
+
+        class Alpha(Channel):
+            def __init__(self, name=None):
+                self.current_is_in_mA_per_cm2 = True
+                super().__init__(name)
+                self.channel_params = {"Alpha_tau": 0.04, "Alpha_g": 2e-3}
+                self.channel_states = {"Alpha_a": 0.7, "Zeta_z": 0.2}  # a channel only sees the states it declares: Zeta_z is shared
+                self.current_name = "i_Alpha"
+
+            def update_states(self, u, dt, v, params):
+                e = jnp.exp(-dt / params["Alpha_tau"])
+                return {"Alpha_a": u["Alpha_a"] * e + u["Zeta_z"] * (1 - e)}  # reads the OTHER channel's state
+
+            def compute_current(self, u, v, params):
+                return params["Alpha_g"] * u["Alpha_a"] * (v + 80.0)
+
+            def init_state(self, states, v, params, delta_t):
+                return {}
+
+        _COUPLED["cls"] = (Zeta, Alpha)
+    Z, A = _COUPLED["cls"]
+    return Z(), A()
+
+
 def cell_pump():
     """Cell ncomp [2,1] with CaL and a channel that integrates the calcium current (reads `i_Ca`)."""
     from jaxley.channels import CaL, Leak
